@@ -515,7 +515,8 @@ def frozendict_value_laws(case, ctx):
 def _layout():
   fld = st.tuples(st.booleans(), st.booleans())  # (static?, default?)
   return st.tuples(st.lists(fld, min_size=1, max_size=5),
-                   st.sampled_from(['dataclass', 'pytreenode', 'kwonly']),
+                   st.sampled_from(['dataclass', 'pytreenode', 'kwonly',
+                                    'pytreenode_sub', 'dataclass_sub']),
                    st.integers(0, 10**6),
                    # user metadata given to struct.field: none, a fresh dict
                    # per field, or one dict object shared by all fields
@@ -555,6 +556,14 @@ def make_class(fields, style, meta='none'):
   ns['__annotations__'] = ann
   if style == 'pytreenode':
     cls = type('PNode', (struct.PyTreeNode,), ns)
+  elif style == 'pytreenode_sub':
+    # a subclass that adds behaviour only (no fields of its own)
+    base = type('PNodeBase', (struct.PyTreeNode,), ns)
+    cls = type('PNodeSub', (base,), {'describe': lambda self: 'sub'})
+  elif style == 'dataclass_sub':
+    base = struct.dataclass(type('DNodeBase', (), ns))
+    cls = struct.dataclass(type('DNodeSub', (base,), {
+        'describe': lambda self: 'sub'}))
   elif style == 'kwonly':
     cls = struct.dataclass(type('KNode', (), ns), kw_only=True)
   else:
@@ -567,7 +576,8 @@ def make_class(fields, style, meta='none'):
         shrink=False,
         rule='random field layouts (1-5 fields, each data or pytree_node='
         'False, optional defaults, user metadata (none / per field / one '
-        'dict shared by all fields), struct.dataclass / PyTreeNode / kw_only): '
+        'dict shared by all fields), struct.dataclass / PyTreeNode / kw_only '
+        '/ method-only subclasses of either): '
         'frozen, replace, leaves == data fields in order, static fields in '
         'treedef, jit retrace iff static changes, tree_map/jit/vmap/grad '
         'rebuild the class; non-trivial = >=1 static and >=1 data field')
